@@ -63,6 +63,7 @@ rview == <<hist, msg, st, cur, prev, den>>
 Retained(i) == st[i] \in {"c", "u"}
 HasDel(upd) == \E k \in DOMAIN upd : upd[k] = Del
 GiveUp(s)   == [i \in DOMAIN s |-> IF s[i] = "u" THEN "x" ELSE s[i]]
+Pending     == {i \in DOMAIN st : st[i] = "u"} # {}       \* (a set comparison: TLC must not split the guard)
 
 RInit == /\ Init
          /\ st = <<"c">> /\ cur = 1 /\ prev = 1
@@ -94,14 +95,14 @@ Atomic(upd) == /\ msg = NoMsg /\ Len(hist) <= MaxRoots
 Life == msg = NoMsg /\ nlife < MaxLife /\ nlife' = nlife + 1
 
 \* Trie.Commit: updatedNodes are flushed to the store
-Commit == /\ Life /\ \E i \in DOMAIN st : st[i] = "u"
+Commit == /\ Life /\ Pending
           /\ st' = [i \in DOMAIN st |-> IF st[i] = "u" THEN "c" ELSE st[i]]
           /\ prev' = cur
           /\ UNCHANGED <<hist, msg, cur, den>>
           /\ Step([name |-> "Commit"])
 
 \* Trie.Stash(rollbackCache)
-Stash(rb) == /\ Life /\ prev # 0 /\ (cur # prev \/ \E i \in DOMAIN st : st[i] = "u")
+Stash(rb) == /\ Life /\ prev # 0 /\ (IF cur # prev THEN TRUE ELSE Pending)
              /\ st' = GiveUp(st)
              /\ cur' = prev
              /\ UNCHANGED <<hist, msg, prev, den>>
